@@ -12,13 +12,21 @@ Definition events_of (f : flavour) (t : list tev) : list ev :=
                      | THandler _ _ => []
                      end) t.
 
+(* the tokens the bodies wrote to the execution log *)
+Definition tokens_of (l : list lev) : list nat :=
+  flat_map (fun e => match e with LTok t => [t] | _ => [] end) l.
+
 Definition model (i : input) : obs :=
   let '(s, propagated, oof) := run (i_prog i) [] in
   {| o_events := if oof then [] else events_of (i_flavour i) (tr s);
-     o_raised := match propagated with Some e => kind_of e | None => RNone end |}.
+     o_raised := match propagated with Some e => kind_of e | None => RNone end;
+     o_ran := tokens_of (log s) |}.
 
+(* which bodies ran is compared as a set: their order and multiplicity are C02's subject *)
+Definition subset (a b : list nat) : bool := forallb (fun t => memb t b) a.
 Definition obs_eqb (a b : obs) : bool :=
-  list_eqb ev_eqb (o_events a) (o_events b) && rk_eqb (o_raised a) (o_raised b).
+  list_eqb ev_eqb (o_events a) (o_events b) && rk_eqb (o_raised a) (o_raised b)
+  && subset (o_ran a) (o_ran b) && subset (o_ran b) (o_ran a).
 
 Definition report := @Base.report input obs model obs_eqb spec_okb findings.
 Definition model_at := @Base.model_at input obs model spec_okb.
